@@ -487,13 +487,77 @@ def _observe_extras(case, obj, model, what, mech):
     return allok
 
 
+VIEW_FORMS = ('int', 'negint', 'npint', 'slice', 'slice_step', 'slice_neg')   # numpy basic indexing: child arrays
+#                                                                               are views of the parent's caches
+KRON_LAZY = ('kron_radius', 'kron_flux', 'kron_fluxerr', 'kron_aperture')
+
+
+def _family_recomputed(obj):
+    """Kron / aperture quantities that are recomputed from the cached intermediates on every call."""
+    kp = tuple(obj.kron_params)
+    return {'kron_photometry(default)': obj.kron_photometry(kp),
+            'make_kron_apertures(default)': obj.make_kron_apertures(kp),
+            'fluxfrac_radius(0.5)': obj.fluxfrac_radius(0.5),
+            'circular_photometry(2.5)': obj.circular_photometry(2.5),
+            'make_circular_apertures(2.5)': obj.make_circular_apertures(2.5)}
+
+
+def _cutouts(obj):
+    return obj.make_cutouts((5, 7), mode='partial', fill_value=np.nan)
+
+
+def _compare_family(case, obj, twin_snap, what, mech, rng, lazy_prob):
+    """What `obj` reports now for the Kron family vs the never-touched twin's snapshot (exact, structural)."""
+    allok = True
+
+    def one(item, fn):
+        nonlocal allok
+        try:
+            v = fn()
+        except Exception as exc:  # noqa: BLE001
+            loc = core.exc_location(exc)
+            if loc is None:
+                raise
+            case.check(False, what, dict(mech, aspect='kron_family_raised', item=item, exc=type(exc).__name__, at=loc),
+                       msg=str(exc)[:200])
+            allok = False
+            return
+        ok, why = cmp.struct_same(v, twin_snap[item], item)
+        case.check(ok, what, dict(mech, aspect='kron_family', item=item), why=why)
+        allok &= ok
+    kp = tuple(obj.kron_params)
+    one('kron_photometry(default)', lambda: obj.kron_photometry(kp))
+    one('make_kron_apertures(default)', lambda: obj.make_kron_apertures(kp))
+    one('fluxfrac_radius(0.5)', lambda: obj.fluxfrac_radius(0.5))
+    one('circular_photometry(2.5)', lambda: obj.circular_photometry(2.5))
+    one('make_circular_apertures(2.5)', lambda: obj.make_circular_apertures(2.5))
+    # cached (lazy) members are read only now and then, so that their *first* evaluation may also happen late
+    for nm in KRON_LAZY:
+        if rng.random() < lazy_prob:
+            one(nm, lambda nm=nm: getattr(obj, nm))
+    if rng.random() < lazy_prob:
+        one('make_cutouts((5,7))', lambda: _cutouts(obj))
+    return allok
+
+
+def _twin_snapshot(obj):
+    snap = {k: _cp(v) for k, v in _family_recomputed(obj).items()}
+    for nm in KRON_LAZY:
+        snap[nm] = _cp(getattr(obj, nm))
+    snap['make_cutouts((5,7))'] = _cutouts(obj)
+    return snap
+
+
 def run_sc_independence(case):
     import astropy.units as u
     rng = case.rng
     sc, det_sc, sub = sc_scene(case)
     labels = [int(x) for x in sc.labels]
     n = len(labels)
-    P = gen.make_catalog(sc, gen.make_catalog(det_sc) if det_sc is not None else None)
+
+    def fresh():
+        return gen.make_catalog(sc, gen.make_catalog(det_sc) if det_sc is not None else None)
+    P = fresh()
     props = list(P.properties)
     cheap = ['xcentroid', 'segment_flux', 'area', 'bbox_xmin', 'semimajor_sigma', 'min_value', 'label']
 
@@ -515,45 +579,75 @@ def run_sc_independence(case):
         mp.values[nm] = v
     for name in [p for p in props if rng.random() < 0.15]:
         getattr(P, name)
+    # in most histories the parent has its Kron quantities cached *before* it is indexed, so that the child
+    # receives slices (views, for int / slice indices) of the parent's cached arrays
+    pre_kron = rng.random() < 0.75
+    if pre_kron:
+        for name in [('kron_radius',), ('kron_flux',), ('kron_radius', 'kron_flux', 'kron_aperture'),
+                     ('kron_fluxerr', 'centroid_win')][int(rng.integers(0, 4))]:
+            getattr(P, name)
+        if rng.random() < 0.4:
+            P.fluxfrac_radius(0.5)
+        case.note('parent_cached_kron_before_indexing')
 
-    form = INDEX_FORMS[int(rng.integers(0, len(INDEX_FORMS)))]
+    if rng.random() < 0.6:
+        form = VIEW_FORMS[int(rng.integers(0, len(VIEW_FORMS)))]
+    else:
+        form = INDEX_FORMS[int(rng.integers(0, len(INDEX_FORMS)))]
     idx, how = make_index(rng, n, form, np.array(labels))
     pos = positions(n, idx, how, np.array(labels))
     C = apply_index(P, idx, how, 'sc')
     cscalar = isinstance(pos, int)
+    is_view = form in VIEW_FORMS
+    if is_view:
+        case.note('child_indexed_by_int_or_slice')
     mc = Registry(mp.names, {k: cmp.index_value(v, pos) for k, v in mp.values.items()})
     objs = {'parent': (P, mp, False, n), 'child': (C, mc, cscalar, 1 if cscalar else len(pos))}
-    base = {'cat': 'SourceCatalog', 'index': form, 'child_scalar': cscalar}
-    case.params = dict(sc.describe(), sub=sub, index=repr(idx), form=form, pre_extras=list(mp.names), steps=[])
+    base = {'cat': 'SourceCatalog', 'index': form, 'child_scalar': cscalar, 'index_is_basic': is_view,
+            'parent_cached_kron': bool(pre_kron)}
+    case.params = dict(sc.describe(), sub=sub, index=repr(idx), form=form, pre_extras=list(mp.names),
+                       parent_cached_kron=bool(pre_kron), kron_params=list(sc.kron_params), steps=[])
+
+    # never-touched twins: a second catalogue from copies of the same inputs, and a child of a third one
+    twin = {'parent': _twin_snapshot(fresh()), 'child': _twin_snapshot(apply_index(fresh(), idx, how, 'sc'))}
+    tw_kr = np.atleast_1d(np.asarray(getattr(twin['parent']['kron_radius'], 'value', twin['parent']['kron_radius']),
+                                     dtype=float))
+    own_min = float(sc.kron_params[1]) if det_sc is None else float(det_sc.kron_params[1])
 
     # what each object reports before the sequence
     snap = {}
     for who, (obj, model, isscalar, m) in objs.items():
         _observe_extras(case, obj, model, 'own_extra_properties_match_model', dict(base, on=who, op='slice'))
         snap[who] = {nm: _cp(getattr(obj, nm)) for nm in cheap}
-        snap[who]['__circ__'] = _cp(obj.circular_photometry(2.5))
 
     nsteps = int(rng.integers(3, 10))
     counter = 0
-    # half of the sequences start by removing *zero* extra properties from one object: a no-op for what it
-    # reports, but it gives that object a registry of its own, so the remaining steps explore interference
-    # through anything other than the (known) shared list
-    first_noop = rng.random() < 0.5
+    first_noop = rng.random() < 0.3
     for step in range(nsteps):
         who = 'parent' if rng.random() < 0.5 else 'child'
         other = 'child' if who == 'parent' else 'parent'
         X, mx, xscalar, m = objs[who]
         Y, my, _, _ = objs[other]
-        ops = ['add', 'add', 'circ', 'kron', 'fluxfrac']
+        ops = ['add', 'circ', 'kron', 'kron', 'fluxfrac', 'kron_noname', 'kron_noname', 'make_kron_apertures',
+               'make_kron_apertures', 'circ_noname', 'make_circular_apertures', 'fluxfrac_noname', 'make_cutouts']
         if mx.names:
-            ops += ['overwrite', 'rename', 'rename', 'remove', 'remove', 'remove_many']
+            ops += ['overwrite', 'rename', 'remove', 'remove_many']
         op = ops[int(rng.integers(0, len(ops)))]
         if step == 0 and first_noop:
             op = 'remove_none'
         shared = X._extra_properties is Y._extra_properties        # label of the mechanism only, never a verdict
         appends = op in ('add', 'rename', 'circ', 'kron', 'fluxfrac')   # operations that append a name to the registry
         mech = dict(base, op=op, on=who, registry_shared_by_reference=bool(shared), op_appends_name=appends)
-        case.params['steps'].append(f'{who}.{op}')
+        # alternative Kron parameters: 2 elements, minimum unscaled radius below, at and above the catalogue's own
+        kp = (float(rng.uniform(1.0, 4.0)), float(rng.choice([0.3, 1.0, 1.4, 2.0, 3.0, 6.0])))
+        if op in ('kron', 'kron_noname', 'make_kron_apertures'):
+            above = kp[1] > own_min
+            mech['alt_min_radius_above_own'] = bool(above)
+            case.note('steps_kron_min_radius_above_own' if above else 'steps_kron_min_radius_not_above_own')
+            if np.any(np.isfinite(tw_kr) & (tw_kr < kp[1])):
+                case.note('steps_kron_min_radius_clip_active')
+            case.note('kron_steps_on_' + who)
+        case.params['steps'].append(f'{who}.{op}' + (f'{kp}' if 'kron' in op else ''))
         counter += 1
         nm = f's{counter}'
         try:
@@ -590,14 +684,27 @@ def run_sc_independence(case):
                 f, fe = X.circular_photometry(float(rng.uniform(1, 5)), name=nm)
                 mx.names += [nm + '_flux', nm + '_fluxerr']
                 mx.values[nm + '_flux'], mx.values[nm + '_fluxerr'] = _cp(f), _cp(fe)
+            elif op == 'circ_noname':
+                X.circular_photometry(float(rng.uniform(0.5, 8)))
+            elif op == 'make_circular_apertures':
+                X.make_circular_apertures(float(rng.uniform(0.5, 8)))
             elif op == 'kron':
-                f, fe = X.kron_photometry((float(rng.uniform(1, 3)), 1.0), name=nm)
+                f, fe = X.kron_photometry(kp, name=nm)
                 mx.names += [nm + '_flux', nm + '_fluxerr']
                 mx.values[nm + '_flux'], mx.values[nm + '_fluxerr'] = _cp(f), _cp(fe)
+            elif op == 'kron_noname':
+                X.kron_photometry(kp)
+            elif op == 'make_kron_apertures':
+                X.make_kron_apertures(kp)
             elif op == 'fluxfrac':
                 r = X.fluxfrac_radius(float(rng.choice([0.2, 0.5, 0.8])), name=nm)
                 mx.names.append(nm)
                 mx.values[nm] = _cp(r)
+            elif op == 'fluxfrac_noname':
+                X.fluxfrac_radius(float(rng.choice([0.1, 0.35, 0.9, 1.0])))
+            elif op == 'make_cutouts':
+                X.make_cutouts((int(rng.integers(1, 12)), int(rng.integers(1, 12))),
+                               mode=['partial', 'trim'][int(rng.integers(0, 2))])
         except ValueError as exc:
             loc = core.exc_location(exc)
             if loc is None:
@@ -612,19 +719,21 @@ def run_sc_independence(case):
             case.check(False, 'extra_property_operation_raised', dict(mech, exc=type(exc).__name__, at=loc),
                        msg=str(exc)[:200])
             break
+        case.note('op_' + op)
+        # the OTHER object: extras, built-ins and the whole Kron family against its never-touched twin
         ok_other = _observe_extras(case, Y, my, 'other_catalog_reports_unchanged', mech)
         for nm_ in cheap:
             ok, why = cmp.struct_same(getattr(Y, nm_), snap[other][nm_], nm_)
             case.check(ok, 'other_catalog_reports_unchanged', dict(mech, aspect='builtin_property'), why=why)
             ok_other &= ok
+        ok_other &= _compare_family(case, Y, twin[other], 'other_catalog_reports_unchanged', mech, rng, 0.35)
+        case.note('kron_family_observations_on_other')
         ok_self = _observe_extras(case, X, mx, 'own_extra_properties_match_model', mech)
         if not (ok_other and ok_self):
             break           # later steps would only report consequences of the same interference
-    else:
-        step = nsteps
+    # at the end both objects, including everything lazy, still report what their never-touched twins report
     for who, (obj, model, isscalar, m) in objs.items():
-        ok, why = cmp.struct_same(obj.circular_photometry(2.5), snap[who]['__circ__'], 'circular_photometry')
-        case.check(ok, 'photometry_unchanged_by_history', dict(base, on=who), why=why)
+        _compare_family(case, obj, twin[who], 'photometry_unchanged_by_history', dict(base, on=who), rng, 1.0)
     case.digest = core.arr_digest(*sc.arrays()) + core.digest([repr(idx), case.params['steps']])[:8]
     case.nontrivial = len(case.params['steps']) >= 3
     case.note('independence_steps', len(case.params['steps']))
